@@ -16,9 +16,14 @@ import (
 	"sync"
 )
 
-const (
-	VerifDir = "/verif"
-)
+// VerifDir is /verif; development copies of the framework override it through VERIF_DIR
+// (set by the check script to its own directory).
+var VerifDir = func() string {
+	if d := os.Getenv("VERIF_DIR"); d != "" {
+		return d
+	}
+	return "/verif"
+}()
 
 // Check is one property's workload × monitor × oracle.
 type Check struct {
